@@ -866,6 +866,12 @@ func runC14(c *Ctx) {
 		allInstrs(f, func(in ssa.Instruction) {
 			if isStaticCall(in, "(time.Time).Format") {
 				cl, _ = constString(callCommon(in).Args[1])
+				// what is formatted is the option's own value: Format already drops the fraction by truncation, which
+				// is "to the second"; Round(time.Second) sends the NEXT second for .5 and above, Add/Truncate with
+				// another unit or a zone-less copy change the instant
+				recv := describe(callCommon(in).Args[0])
+				okRecv := recv == "RcptOptions.RequireRecipientValidSince" || recv == "(time.Time).UTC(RcptOptions.RequireRecipientValidSince)" || recv == "(time.Time).Truncate(RcptOptions.RequireRecipientValidSince,1000000000)"
+				R.Ob(c.siteKey(in, "RRVS formats the option's own instant"), c.P.InstrPos(in), okRecv, "the timestamp rendered is "+recv+", not the RequireRecipientValidSince given by the caller: the backend observes another second")
 			}
 		})
 		if g := c.A.Func("(*Conn).handleRcpt"); g != nil {
